@@ -709,6 +709,12 @@ func cmdRun(args []string) int {
 	}
 	var violations []confirmed
 	var unconfirmed []string
+	type retryT struct {
+		job int
+		vec Vector
+		msg string
+	}
+	var retries []retryT
 	var validationErrors []string
 	tracesOK := 0
 	tracesTried := 0
@@ -755,7 +761,19 @@ func cmdRun(args []string) int {
 						// map-order dependent counterexamples may need another native order: retried below
 						unconfirmed = append(unconfirmed, fmt.Sprintf("%s %s: model did not reproduce natively (native: %s; map-order dependent)", p.vec.Harness, caseString(p.vec.Case), o.Outcome))
 					} else {
-						unconfirmed = append(unconfirmed, fmt.Sprintf("%s %s [%s]: model did not reproduce natively (native outcome: %s)", p.vec.Harness, caseString(p.vec.Case), p.vec.Expect, o.Outcome))
+						msg := fmt.Sprintf("%s %s [%s]: model did not reproduce natively (native outcome: %s)", p.vec.Harness, caseString(p.vec.Case), p.vec.Expect, o.Outcome)
+						hasUF := false
+						for _, k := range results[p.job].InputKinds {
+							hasUF = hasUF || k == "uf"
+						}
+						if hasUF {
+							// the model fixes values of an uninterpreted function
+							// (the hash) that the real function need not take on
+							// these inputs: other models are tried below
+							retries = append(retries, retryT{p.job, p.vec, msg})
+						} else {
+							unconfirmed = append(unconfirmed, msg)
+						}
 					}
 					continue
 				}
@@ -781,6 +799,52 @@ func cmdRun(args []string) int {
 		}(pkg, ps)
 	}
 	rwg.Wait()
+
+	// 3b. counterexamples over an uninterpreted function that did not
+	// reproduce with the real function: the unit is run again with other
+	// solver seeds (other models), up to four times, and each counterexample
+	// for the same assertion is replayed; the first that reproduces counts
+	doneRetry := map[string]bool{}
+	for _, rt := range retries {
+		key := fmt.Sprintf("%d|%s", rt.job, rt.vec.Expect)
+		if doneRetry[key] {
+			continue
+		}
+		doneRetry[key] = true
+		found := false
+		for k := 1; k <= 4 && !found; k++ {
+			j2 := jobs[rt.job]
+			j2.Seed = seed + 7919*k
+			r2 := runJobs([]Job{j2}, 1, nil)
+			var vecs []Vector
+			for _, v := range r2[0].Violations {
+				exp := "assert:" + v.Label
+				if v.Kind == "panic" {
+					exp = "panic"
+				}
+				if exp == rt.vec.Expect {
+					vecs = append(vecs, Vector{Property: prop, Pkg: j2.Pkg, Harness: j2.Harness, Case: j2.Case, Nondet: v.Nondet, Expect: exp, Obs: v.Obs, What: v.Label})
+				}
+			}
+			if len(vecs) == 0 {
+				continue
+			}
+			outs, err := nativeReplay(j2.Pkg, vecs)
+			if err != nil {
+				continue
+			}
+			for i, o := range outs {
+				if outcomeMatches(vecs[i].Expect, o.Outcome) {
+					violations = append(violations, confirmed{vecs[i], o.Outcome})
+					found = true
+					break
+				}
+			}
+		}
+		if !found {
+			unconfirmed = append(unconfirmed, rt.msg+" (nor did the models of four further solver seeds)")
+		}
+	}
 
 	// 4. verdict
 	os.MkdirAll(filepath.Join(vd, "replays", prop), 0o755)
